@@ -115,6 +115,12 @@ func genPlainStream(r *rand.Rand) []byte {
 				}
 			}
 		}
+		if r.Intn(150) == 0 { // one field many times over: what is reported must stay proportional to the input
+			k := pick(r, []int{300, 1200})
+			for j := 0; j < k; j++ {
+				fields = append(fields, [2]string{"Content-Type", "text/plain"})
+			}
+		}
 		version := pick(r, []string{"1.1", "1.1", "1.0", "0.9", "1.1 ", "", oddVersion(r), oddVersion(r)})
 		le := "\r\n"
 		if r.Intn(10) == 0 {
